@@ -10,6 +10,10 @@ import jesse_env
 
 class C02(core.Check):
     pid = 'C02'
+    unproved = [
+        "composition of minute_no_resting_hit and sorted_head_first_on_path into 'an order resting since before the minute is never left unfilled with its price inside the minute's range' needs the frame fact that hooks never change the price / symbol of an existing order and never re-activate it; that fact is checked by the whole-session correspondence and the missed-fill oracle only",
+        'fast simulator: which candidate is hit first after a re-selection (unsorted) - known finding C02-F1',
+    ]
     gen_keys = ['jesse/services/candle.py:split_candle', 'jesse/services/candle.py:candle_includes_price',
                 'jesse/modes/backtest_mode.py:_get_fixed_jumped_candle']
     rule = ('correspondence: whole sessions on the real engine and on the Lean engine model with volatile candles (gaps, '
@@ -30,7 +34,7 @@ class C02(core.Check):
     def correspondence(self, res, boost):
         jesse_env.setup()
         rng = random.Random(self.seed * 7919 + 2)
-        engcorr.compare_sessions(res, self.sessions(self.budget(40, 700, boost), rng))
+        engcorr.compare_sessions(res, self.sessions(self.budget(100, 700, boost), rng))
 
     def oracle(self, res, boost):
         jesse_env.setup()
@@ -45,7 +49,7 @@ class C02(core.Check):
                 w.setdefault('syms', sorted({x for x, _ in w['routes']}))
                 w.setdefault('balance', 100_000)
                 witnesses.append(w)
-        for sess in witnesses + self.sessions(self.budget(60, 1200, boost), rng):
+        for sess in witnesses + self.sessions(self.budget(180, 1200, boost), rng):
             cands = engcorr.candles_of(sess)
             ev, tr, err = engcorr.run_real(sess, cands)
             step = 1
